@@ -60,7 +60,11 @@ Check(r) ==
       c7 == (Len(r.expEcho) = 0 \/ (\A j \in 1..Len(E) : j <= Len(r.expEcho) /\ num(E[j]) = r.expEcho[j])
              \/ RejP("C14", r, "a Heartbeat echoes a TestReqID that was not sent on this connection, or not at that point",
                      [got |-> [j \in 1..Len(E) |-> num(E[j])], sent |-> r.expEcho]))
-  IN (c1 \in BOOLEAN) /\ (c2 \in BOOLEAN) /\ (c3 \in BOOLEAN) /\ (c4 \in BOOLEAN) /\ (c5 \in BOOLEAN) /\ (c6 \in BOOLEAN) /\ (c7 \in BOOLEAN)
+      \* (C01) whatever else is going on (senders, retransmissions, timers at the same time): every message on the wire is framed
+      c8 == ((\A j \in 1..Len(r.msgs) : r.msgs[j].framed)
+             \/ RejP("C01", r, "a message on the wire is not correctly framed (BodyLength / CheckSum disagree with its bytes)",
+                     [kind |-> r.kind, at |-> CHOOSE j \in 1..Len(r.msgs) : ~r.msgs[j].framed, seq |-> r.msgs[CHOOSE j \in 1..Len(r.msgs) : ~r.msgs[j].framed].seq]))
+  IN (c1 \in BOOLEAN) /\ (c2 \in BOOLEAN) /\ (c3 \in BOOLEAN) /\ (c4 \in BOOLEAN) /\ (c5 \in BOOLEAN) /\ (c6 \in BOOLEAN) /\ (c7 \in BOOLEAN) /\ (c8 \in BOOLEAN)
 
 Init == l = 1
 Next == l <= Len(Trace) /\ (Check(Trace[l]) \in BOOLEAN) /\ l' = l + 1
